@@ -141,9 +141,11 @@ PROPS = {
         "confirm_tries": 6,
         "quick": [
             {"test": "TestC05Concurrent", "checks": 900, "shards": 3, "race": True, "gomaxprocs": [2, 4, 16]},
+            {"test": "TestC05RaceOnly", "checks": 400, "shards": 2, "race": True, "gomaxprocs": [4, 16]},
         ],
         "thorough": [
-            {"test": "TestC05Concurrent", "checks": 48000, "shards": 16, "race": True, "gomaxprocs": [2, 4, 16, 8]},
+            {"test": "TestC05Concurrent", "checks": 48000, "shards": 12, "race": True, "gomaxprocs": [2, 4, 16, 8]},
+            {"test": "TestC05RaceOnly", "checks": 16000, "shards": 4, "race": True, "gomaxprocs": [4, 16]},
         ],
         "assumptions": [
             "schedules are sampled (goroutine counts 2-8, GOMAXPROCS 2/4/8/16), not enumerated; the race detector only sees pairs of accesses that were executed",
